@@ -298,7 +298,7 @@ func (w *World) functionVCsT(fn *ssa.Function, prop string, prove map[string]boo
 				}
 				pvc := w.mkVC(g, fmt.Sprintf("%s.post[%s]/%s", key, tagLabel(cl, prove, prop), clauseLabel(cl, cl.ord)), prop, "post", key, cl.src,
 					append(g.groupLines(cl.using, false), "(assert "+returned+")", "(assert (not "+t.t+"))"), w.pos(fn.Pos()), e.replaySpec())
-				pvc.Local = len(cl.using) > 0 // not handed to callers as a premise
+				pvc.Local = len(cl.using) > 0 && !usesPublic(cl.using) // not handed to callers as a premise
 				pvc.Uses = cl.using
 				if cl.expr.op == "binary" && cl.expr.name == "==>" && len(e.rets) > 1 {
 					env.skNext = 0
